@@ -161,6 +161,42 @@ def r2_stated_invariants(ctx, rep, R='C20.R2'):
         r = g.reach([p], avoid=set(direct) | set(bulk), edge_ok=lambda s, d, k: k != 'exc')
         okp = okp and bool(direct or bulk) and not any(x in r for x in reads) and \
             not any(x in r for x in pushes)
+    srem = _slice_removals(g, fi)
+    if not pops and srem:
+        okp = bool(pushes) and bool(reads)
+        for p in pushes:
+            r = g.reach([p], avoid=set(sets[True]), edge_ok=lambda s, d, k: k != 'exc')
+            okp = okp and not any(x in r for x in reads + pushes if x != p) and g.exit not in r
+    for dn, C, K, cn in srem:
+        # every element of the removed slice gets its flag cleared before the next observation
+        from .common import local_assignments
+        alias = {C}
+        for nm, vals in local_assignments(fi.node).items():
+            if any(isinstance(x, ast.Name) and x.id in alias for x in vals if isinstance(x, ast.AST)):
+                alias.add(nm)
+        bulk = []
+        for n in g.nodes:
+            if n.kind == 'for' and isinstance(n.ast, ast.Name) and n.ast.id in alias and \
+                    isinstance(n.stmt.target, ast.Name) and \
+                    not any(isinstance(x, (ast.Break, ast.Continue, ast.If)) for x in ast.walk(n.stmt)):
+                lv = n.stmt.target.id
+                if any(isinstance(x, ast.Assign) and isinstance(x.value, ast.Constant) and
+                       x.value.value is False and any(
+                           isinstance(t, ast.Attribute) and t.attr == 'stacked' and
+                           isinstance(t.value, ast.Subscript) and is_name(t.value.slice, lv)
+                           for t in x.targets) for x in n.stmt.body):
+                    bulk.append(n.id)
+        # the collection is not shortened before the clearing loop
+        cut = [n.id for n in g.nodes if n.kind == 'stmt' and n.ast is not None and any(
+            (isinstance(y, ast.Call) and isinstance(y.func, ast.Attribute) and
+             isinstance(y.func.value, ast.Name) and y.func.value.id in alias and
+             y.func.attr in ('pop', 'remove', 'clear')) or
+            (isinstance(y, ast.Subscript) and isinstance(y.value, ast.Name) and y.value.id in alias and
+             isinstance(y.ctx, (ast.Store, ast.Del))) for y in ast.walk(n.ast))]
+        r = g.reach([dn], avoid=set(bulk), edge_ok=lambda s, d, k: k != 'exc')
+        r0 = g.reach([cn], avoid=set(bulk), edge_ok=lambda s, d, k: k != 'exc')
+        okp = okp and bool(bulk) and not any(x in r for x in reads) and not any(x in r for x in pushes) \
+            and not any(x in r0 for x in cut)
     rep.check(okp, R, 'stacked is set after every stack push and cleared after every stack pop',
               'the "stacked" flag can get out of step with the stack', key='stacked-flag',
               func=fi.qualname, where=ctx.where(fi, fi.node))
@@ -650,6 +686,30 @@ def r4_low_link_discipline(ctx, rep, R='C20.R4'):
                     whyp = 'the popping loop can be left at "%s" without the popped element being ' \
                         'the root %s' % (g.node(sn).text(), X)
             break
+        if okp is False and whyp == 'no loop popping the stack found':
+            # bulk form: K = len(stack) - 1; while stack[K] is not X: K -= 1; C = stack[K:]; del stack[K:]
+            for dn, C, K, cn in _slice_removals(g, fi):
+                scans = [t for t in g.nodes if t.kind == 'test' and isinstance(t.stmt, ast.While) and
+                         isinstance(t.ast, ast.Compare) and len(t.ast.ops) == 1 and
+                         isinstance(t.ast.ops[0], (ast.IsNot, ast.NotEq)) and
+                         {norm(t.ast.left), norm(t.ast.comparators[0])} == {'stack[%s]' % K, X}]
+                inits = [n for n in g.nodes if n.kind == 'stmt' and isinstance(n.ast, ast.Assign) and
+                         is_name(n.ast.targets[0], K) and norm(n.ast.value) in ('len(stack) - 1', '-1 + len(stack)')]
+                if len(scans) == 1 and len(inits) == 1:
+                    lp = scans[0].stmt
+                    body_ok = len(lp.body) == 1 and isinstance(lp.body[0], ast.AugAssign) and \
+                        isinstance(lp.body[0].op, ast.Sub) and is_name(lp.body[0].target, K) and \
+                        norm(lp.body[0].value) == '1' and not lp.orelse
+                    # from the initialisation to the copy K is only changed by the scan
+                    others = [n for n in g.nodes if n.kind == 'stmt' and n.ast is not None and
+                              n.id != inits[0].id and not any(x is n.ast for x in ast.walk(lp)) and
+                              any(isinstance(y, ast.Name) and y.id == K and
+                                  isinstance(y.ctx, (ast.Store, ast.Del)) for y in ast.walk(n.ast))]
+                    if body_ok and not others and ('popped', X) in facts(scans[0].id):
+                        okp, whyp = True, ''
+                    else:
+                        whyp = 'the index scan that finds the root on the stack is not of the form ' \
+                            'K = len(stack) - 1; while stack[K] is not %s: K -= 1' % X
         if okp is None:
             rep.undecide(R, 'pop-loop', whyp)
         else:
@@ -860,6 +920,46 @@ def r6_visit_dispatch(ctx, rep, R='C20.R6'):
                   'without storing the return entry %s below them: the node is never closed, or is '
                   'closed before its neighbours were visited' % (norm(an.ast), M),
                   key='schedule-return', func=fi.qualname, where=ctx.where(fi, an.ast))
+
+
+def _slice_removals(g, fi, stack='stack'):
+    """bulk removal of the top of the stack: ``C = stack[K:]`` ... ``del stack[K:]`` (the same K, the
+    stack untouched in between).  Returns [(delete node id, C, K, copy node id)]."""
+    out = []
+    for n in g.nodes:
+        if n.kind != 'stmt' or not isinstance(n.ast, ast.Delete):
+            continue
+        for t in n.ast.targets:
+            if isinstance(t, ast.Subscript) and is_name(t.value, stack) and isinstance(t.slice, ast.Slice) \
+                    and t.slice.upper is None and t.slice.step is None and isinstance(t.slice.lower, ast.Name):
+                K = t.slice.lower.id
+                copies = [c for c in g.nodes if c.kind == 'stmt' and isinstance(c.ast, ast.Assign) and
+                          len(c.ast.targets) == 1 and isinstance(c.ast.targets[0], ast.Name) and
+                          norm(c.ast.value) == '%s[%s:]' % (stack, K)]
+                for c in copies:
+                    # from the copy to the delete: neither the stack nor K changes
+                    def touches(x):
+                        a = x.ast
+                        if a is None or x.id in (c.id, n.id):
+                            return False
+                        for y in ast.walk(a):
+                            if isinstance(y, ast.Name) and y.id == K and isinstance(y.ctx, (ast.Store, ast.Del)):
+                                return True
+                            if isinstance(y, ast.Call) and isinstance(y.func, ast.Attribute) and \
+                                    is_name(y.func.value, stack) and y.func.attr in (
+                                        'append', 'pop', 'extend', 'insert', 'remove', 'clear', 'reverse', 'sort'):
+                                return True
+                            if isinstance(y, ast.Subscript) and is_name(y.value, stack) and \
+                                    isinstance(y.ctx, (ast.Store, ast.Del)):
+                                return True
+                        return False
+                    bad = {x.id for x in g.nodes if touches(x)}
+                    okp, _w = g.every_path_passes([d for d, k in g.succ[c.id] if k != 'exc'],
+                                                  [g.exit] + list(bad), {n.id}, include_start=True,
+                                                  edge_ok=lambda s_, d_, k_: k_ != 'exc')
+                    if okp:
+                        out.append((n.id, c.ast.targets[0].id, K, c.id))
+    return out
 
 
 def _parents_of(node, stop):
